@@ -32,6 +32,49 @@ pub fn generate(tier: &str, rng: &mut Rng) -> Vec<String> {
         }
         out.push(c.line());
     }
+    // messages around and above the default yield threshold (32 KiB)
+    for (i, len) in [32762usize, 32763, 32764, 40000, 70000].iter().enumerate() {
+        let m: Vec<u8> = (0..*len).map(|k| (k % 251) as u8).collect();
+        let small = vec![1u8, 2, 3];
+        let comp = ENCS[i % 4];
+        let c = EncCase { server: i % 2 == 0, comp, disable: false, yield_thr: 32 * 1024, buf_size: 8 * 1024, max: None,
+                  evs: vec![format!("i{}", &hex(&small)[1..]), format!("i{}", &hex(&m)[1..]), "p".into(), format!("i{}", &hex(&small)[1..])],
+                  items: vec![small.clone(), m.clone(), small.clone()], extra_polls: 1 };
+        out.push(c.line());
+        let mut bytes = frame(0, &small);
+        let start2 = bytes.len();
+        bytes.extend(frame(0, &m));
+        let chunks = chunkings(rng, &bytes, &[0, start2], 3);
+        let evs = events_from_chunks(rng, chunks, true);
+        out.push(DecCase { dir: "req".into(), enc: None, max: None, buf_size: 8192, evs, stream: bytes, extra_polls: 1 }.line());
+    }
+    // the same through the real ProstCodec (messages are serialized google.protobuf.Any values)
+    for _ in 0..n / 3 {
+        let mut c = gen_enc_case(rng, false, false);
+        let mut items = Vec::new();
+        for ev in c.evs.iter_mut() {
+            if ev.starts_with('i') {
+                let m = gen_any_msg(rng, 200);
+                *ev = format!("i{}", &hex(&m)[1..]);
+                items.push(m);
+            }
+        }
+        c.items = items;
+        out.push(format!("p{}", c.line()));
+    }
+    for _ in 0..n / 3 {
+        let enc = *rng.pick(&ENCS);
+        let (bytes, starts, _) = gen_valid_stream_with(rng, enc, 200, true);
+        let style = rng.below(4);
+        let style = if bytes.len() > 600 && style == 1 { 3 } else { style };
+        let chunks = chunkings(rng, &bytes, &starts, style);
+        let mut evs = events_from_chunks(rng, chunks, true);
+        if rng.chance(1, 2) {
+            evs.push("t0".into());
+        }
+        let dir = if rng.chance(1, 2) { "req" } else { "resp200" };
+        out.push(format!("p{}", DecCase { dir: dir.into(), enc, max: None, buf_size: *rng.pick(&[1usize, 16, 8192]), evs, stream: bytes, extra_polls: 2 }.line()));
+    }
     if thorough {
         // small-scope exhaustive: every chunking (all 2^(n-1) cut sets) of short streams
         for msgs in [vec![vec![]], vec![vec![7u8]], vec![vec![1u8, 2], vec![]], vec![vec![], vec![5u8, 6, 7]]] {
